@@ -97,6 +97,13 @@ T.append(tree('D12 sources', cmd('app', 'root', extra=[grp('Application Options'
     opt('f', 'flag')],
     [grp('Env Group', [opt('', 'ge', 'scalar', 'string', env='VF_D')], envNs='N')])])))
 
+# D13 optional sub-commands on a nested command only (the root still requires a command); no positionals
+T.append(tree('D13 nested optional', cmd('app', 'root', extra=[grp('Application Options', [opt('v', 'verbose')])], cmds=[
+    cmd('cfg', 'exec', subOpt=True, aliases=['c'], extra=[grp('Cfg', [opt('k', 'keep'), opt('n', 'name', 'scalar', 'string')])], cmds=[
+        cmd('sub', 'exec', extra=[grp('Sub', [opt('s', 'ess')])])]),
+    cmd('other', 'exec', extra=[grp('Other', [opt('o', 'oh')])], cmds=[
+        cmd('leaf', 'exec', extra=[grp('Leaf', [opt('l', 'ell')])])])])))
+
 with open('argparse.ndjson', 'w') as f:
     for i, t in enumerate(T, 1):
         t['id'] = i
